@@ -325,6 +325,9 @@ fn tokens(data: &[u8]) -> Vec<(usize, usize)> {
     v
 }
 
+/// Replacements for every maximal run of ASCII digits (numbers inside tokens: dates `19.10.1992`, `[1]`, `01`, `MA0001.1`)
+const NUMBER_REPLACEMENTS: [&str; 18] = ["", "0", "00", "1", "9", "12", "13", "29", "30", "31", "32", "99", "255", "256", "65535", "65536", "4294967295", "18446744073709551616"];
+
 const TOKEN_REPLACEMENTS: [&str; 10] = ["4294967296", "99999999999999999999", "-1", "1e999", "nan", "inf", "0.5", "+", "Z", "[]"];
 
 /// Line- and token-level structural variants of a valid file: (name, detail, bytes, fault position).
@@ -397,6 +400,26 @@ fn structural_variants(data: &[u8]) -> Vec<(&'static str, String, Vec<u8>, usize
         for r in TOKEN_REPLACEMENTS {
             out.push(("token-replaced", format!("token {} {:?} -> {:?}", t, String::from_utf8_lossy(&data[s..e]), r), splice(r.as_bytes()), s));
         }
+    }
+    // every maximal run of digits, wherever it sits (inside dotted dates, brackets, identifiers)
+    let mut i = 0;
+    let mut run = 0;
+    while i < data.len() {
+        if !data[i].is_ascii_digit() {
+            i += 1;
+            continue;
+        }
+        let s = i;
+        while i < data.len() && data[i].is_ascii_digit() {
+            i += 1;
+        }
+        for r in NUMBER_REPLACEMENTS {
+            let mut v = data[..s].to_vec();
+            v.extend_from_slice(r.as_bytes());
+            v.extend_from_slice(&data[i..]);
+            out.push(("number-replaced", format!("digit run {} {:?} -> {:?}", run, String::from_utf8_lossy(&data[s..i]), r), v, s));
+        }
+        run += 1;
     }
     out
 }
@@ -553,11 +576,69 @@ fn run_short_lines(ctx: &mut Ctx, rep: &mut Report, ck: &mut Checker, base: &mut
     }
 }
 
+const TAG_CHARS: &[u8] = b"ABCDEFGHIJKLMNOPQRSTUVWXYZ0123456789";
+const TAG_TAILS: [&str; 4] = ["", "  x", "  1.1.1992 (created); x.", " [1]"];
+
+/// Every two-character line tag over [A-Z0-9] x four line tails, alone (with and without newline) and in front of every
+/// line of the TRANSFAC base files (a tag known to one table of the reader but not to another must give Err, not a panic).
+fn run_tag_lines(ctx: &mut Ctx, rep: &mut Report, ck: &mut Checker, base: &mut u64, bases: &[(usize, Base)]) {
+    rep.space(
+        "tag_lines",
+        "TRANSFAC readers (DNA, protein): ALL 1296 two-character tags over [A-Z0-9] x line tails {'', '  x', '  1.1.1992 (created); x.', ' [1]'} x placements {the line alone with final newline, alone without, \
+         inserted in front of EVERY line of each TRANSFAC base file, appended after the last line} x chunkings {whole, 1-byte chunks, one cut at the inserted line}; same oracle as short_strings; non-trivial = all",
+    );
+    rep.sample_space(1, || json!({"tag": "TY", "tail": "  x", "placement": "before line 2 of transfac/dna/bare"}));
+    let tf: Vec<&(usize, Base)> = bases.iter().filter(|(_, b)| b.fmt == Fmt::Transfac).collect();
+    for (a, &c0) in TAG_CHARS.iter().enumerate() {
+        let idx = *base;
+        *base += 1;
+        if !ctx.mine(idx) {
+            continue;
+        }
+        for (bi, &c1) in TAG_CHARS.iter().enumerate() {
+            watch::beat(15, 700, a as u64, bi as u64);
+            ctx.crumb(|| format!("C15 tag_lines tag={}{}", c0 as char, c1 as char));
+            for tail in TAG_TAILS {
+                let mut line = vec![c0, c1];
+                line.extend_from_slice(tail.as_bytes());
+                let detail = format!("tag line {:?}", String::from_utf8_lossy(&line));
+                for (_, (fmt, alpha)) in READERS.iter().copied().enumerate().filter(|(_, r)| r.0 == Fmt::Transfac) {
+                    let mut with_nl = line.clone();
+                    with_nl.push(b'\n');
+                    let origin = Origin { base: "-".into(), fault: "tag-line-alone", detail: detail.clone() };
+                    ck.check(rep, fmt, alpha, &with_nl, 0, true, &origin);
+                    ck.check(rep, fmt, alpha, &line, 0, true, &origin);
+                }
+                for (_, b) in &tf {
+                    let lines = split_lines(&b.bytes);
+                    let mut at = 0usize;
+                    for k in 0..=lines.len() {
+                        let mut v = b.bytes[..at].to_vec();
+                        v.extend_from_slice(&line);
+                        v.push(b'\n');
+                        v.extend_from_slice(&b.bytes[at..]);
+                        let origin = Origin { base: b.name.clone(), fault: "tag-line-inserted", detail: format!("{} before line {}", detail, k) };
+                        ck.check(rep, b.fmt, b.alpha, &v, at, true, &origin);
+                        if k < lines.len() {
+                            at += lines[k].len();
+                        }
+                    }
+                }
+            }
+        }
+        if ctx.out_of_time() {
+            rep.cap(format!("tag_lines: wall-clock cap at first character {}", c0 as char));
+            return;
+        }
+    }
+}
+
 fn run_structural(ctx: &mut Ctx, rep: &mut Report, ck: &mut Checker, base: &mut u64, bases: &[(usize, Base)]) {
     rep.space(
         "structural",
         "small valid base files (1 and 2 records per reader, see samples) x structural faults: for EVERY line {deleted, duplicated (duplicated symbol line / header), swapped with the next, emptied, newline removed, last token dropped (ragged), extra token appended (ragged), leading space, trailing space}; \
-         header only; header twice; missing final newline; for EVERY whitespace-separated token {deleted, duplicated, replaced by each of 4294967296, 99999999999999999999, -1, 1e999, nan, inf, 0.5, +, Z, []} \
+         header only; header twice; missing final newline; for EVERY whitespace-separated token {deleted, duplicated, replaced by each of 4294967296, 99999999999999999999, -1, 1e999, nan, inf, 0.5, +, Z, []}; \
+         for EVERY maximal run of digits (inside dotted dates, brackets, identifiers too) replaced by each of '', 0, 00, 1, 9, 12, 13, 29, 30, 31, 32, 99, 255, 256, 65535, 65536, 4294967295, 18446744073709551616 \
          x chunkings {whole, 1-byte chunks, one cut at the fault}; same oracle as short_strings; non-trivial = all",
     );
     for (ri, b) in bases {
@@ -882,6 +963,9 @@ pub fn run(ctx: &mut Ctx, rep: &mut Report) {
     }
     if !ctx.capped && ctx.wants("structural") {
         run_structural(ctx, rep, &mut ck, &mut base, &bases);
+    }
+    if !ctx.capped && ctx.wants("tag_lines") {
+        run_tag_lines(ctx, rep, &mut ck, &mut base, &bases);
     }
     if !ctx.capped && ctx.wants("mutations") {
         rep.space(
